@@ -53,7 +53,7 @@ def join(texts, types, r, blanks=0.0, bracket_nl=0.0, comments=0.0, crlf=False, 
             if depth > 0 and r.random() < bracket_nl:
                 gap = r.choice(['\n', ' \n ', '\n\n\t'])
                 if r.random() < comments:
-                    gap = ' # c ) ] } , ; "' + gap
+                    gap = r.choice([' # c ) ] } , ; "', ' # note \u2028 x = 5 , 7', ' #\x0c) ]', ' # a \x85 b \x0b 1 +', ' # \u2029 ; y = 2']) + gap
             elif r.random() < blanks:
                 gap = r.choice(['  ', '\t', ' \t ', '    '])
             out.append(gap)
@@ -62,7 +62,7 @@ def join(texts, types, r, blanks=0.0, bracket_nl=0.0, comments=0.0, crlf=False, 
                 if r.random() < sep_swap:
                     s = ';' if s != ';' else '\n'
                 if s != ';' and r.random() < comments:
-                    out.append('# note ; ( " ')
+                    out.append(r.choice(['# note ; ( " ', '# initial value\u2028x = 5 ', '# \x0c y = [ ', '# \x1c\x1d\x1e ) ', '# \x85 + 1 ']))
                 if r.random() < blank_stmts:
                     s = s + r.choice([' ;', '\n', ' \n ;', ';;', '\n  \n'])
         if t in refspans.OPENERS:
@@ -121,6 +121,9 @@ def run_case(case, ctx):
             toks.append(tk)
             texts.append(s)
     base = ' '.join(texts)
+    if r.random() < 0.15:
+        gram.earlier_call(ctx.P, r)
+        ctx.count('bases_preceded_by_an_arbitrary_earlier_call')
     b = impl_tree(ctx, base)
     if b[0] != 'ok':
         ctx.count('bases_rejected(dropped)')
@@ -137,6 +140,8 @@ def run_case(case, ctx):
     def check(kind, text2):
         if text2 == base:
             return
+        if r.random() < 0.03:
+            gram.earlier_call(ctx.P, r)
         ctx.evaluations += 1
         ctx.count('pairs_compared')
         ctx.count('rewrite:' + kind)
